@@ -266,7 +266,7 @@ func (s *c07State) sweep(subjects []string) {
 func c07Property(t *rapid.T, st *Stats) {
 	dirStore := rapid.Bool().Draw(t, "dirStore")
 	limit := int64(rapid.SampledFrom([]int{0, 0, 420, 520, 700, 1000, 1500}).Draw(t, "referrerLimit"))
-	pageCache := rapid.SampledFrom([]int{0, 0, 1, 2}).Draw(t, "pageCacheLimit")
+	pageCache := rapid.SampledFrom([]int{0, 1, 1, 2}).Draw(t, "pageCacheLimit")
 	e, cleanup := newEnv(t, st, dirStore, func(c *config.Config) {
 		if limit > 0 {
 			c.API.Referrer.Limit = limit
@@ -651,6 +651,41 @@ func c07Property(t *rapid.T, st *Stats) {
 			if s.chain == nil || s.chain.next == "" {
 				t.Skip("no chain in progress")
 			}
+			s.chainStep()
+		},
+		"chainInterference": func(t *rapid.T) {
+			// between two requests of the slow client: a referrer it has already been given is deleted (what follows moves
+			// up by one place), another client reads the new listing (which is cached then, and with a small page cache
+			// displaces the one the slow client is paging through), and the slow client continues
+			if s.chain == nil || s.chain.next == "" {
+				t.Skip("no chain in progress")
+			}
+			c := s.chain
+			mr := e.repo(c.rn)
+			cands := []string{}
+			for _, d := range sortedKeys(c.seen) {
+				if m := mr.mans[d]; m != nil && m.subject == c.sd && !mr.fuzzy[d] && len(s.wantSet(c.rn, d, "")) == 0 {
+					if _, isCopy := copies[c.rn+" "+d]; !isCopy {
+						cands = append(cands, d)
+					}
+				}
+			}
+			if len(cands) == 0 || mr.refFuzzy[c.sd] {
+				t.Skip("nothing the client has seen can be deleted")
+			}
+			d := rapid.SampledFrom(cands).Draw(t, "seenReferrer")
+			r := e.do("DELETE", "/v2/"+c.rn+"/manifests/"+d, nil, nil)
+			e.logf("chainInterference: delete %s (already delivered to the slow client) : %d", short(d), r.code)
+			s.bad(r, "DELETE digest")
+			if r.code != 202 {
+				e.abandon("digest delete refused")
+			}
+			e.modelDeleteDigest(c.rn, d)
+			e.class("delete-or-overwrite")
+			e.class("artifact-deleted")
+			e.class("slow-chain-interfered")
+			touched[c.sd] = true
+			s.readReferrers(c.rn, c.sd, "", "another client after the delete")
 			s.chainStep()
 		},
 		"chainStepAgain": func(t *rapid.T) {
